@@ -5,6 +5,9 @@ R16.1 the comparator given to qsort is a total order: by clock, ties broken by s
 R16.2 write-back: write_stream is a full-write pwrite loop at the region's offset; fdatasync/close checked
 R16.3 the region state machine of stream_winsort, evaluated on event-class sequences
 R16.4 a region that cannot be sorted makes ovnisort fail with exit status 1
+R16.5 execute_sort_plan evaluated on small streams and look-back rings: the byte range it sorts and writes back
+      starts at an event before which nothing is later than the region's earliest event, ends at the closing
+      marker, and the ring is rebuilt from that event's slot (bounded; the sort itself is not evaluated)
 """
 import itertools
 
@@ -234,6 +237,110 @@ def run(ctx):
     ctx.check(res and all(r[0].kind == "die" for r in res), "R16.2", "stream_winsort:close-checked", sw.loc(),
               "a failing close of the sorted stream is ignored")
 
+    # ---- R16.5 ------------------------------------------------------------------------------------
+    ctx.rule("R16.5", "execute_sort_plan (with find_destination, find_min_clock and the ring filled by ring_add), "
+             "evaluated on streams of up to 6 events and rings of 3, 4 and more slots: when it succeeds, the range "
+             "[first, next) handed to sort_buf and written back at first's own offset is such that no event before "
+             "first has a later clock than an event of the range, and rebuild_ring / ring_check start at the ring "
+             "slot that holds first; it fails only when the look-back ring no longer reaches far enough")
+    HDR = F("ovni_ev", "header")
+    CLK = HDR + F("ovni_ev_header", "clock")
+    FLG = HDR + F("ovni_ev_header", "flags")
+    ra = prog.fn("ring_add", SC)
+    esp5 = prog.fn("execute_sort_plan", SC)
+    EVSZ = 12       # events without payload
+
+    def plan_case(clocks, rstart, rsize):
+        n = len(clocks)
+        store = {DBG: INT(0), ("RING", F("ring", "ev")): PTR("RA", (0,)), ("RING", F("ring", "size")): INT(rsize),
+                 ("RING", F("ring", "head")): INT(0), ("RING", F("ring", "tail")): INT(0)}
+        for i, c in enumerate(list(clocks) + [99]):
+            store[("SBUF", (EVSZ * i,) + CLK)] = INT(c)
+            store[("SBUF", (EVSZ * i,) + FLG)] = INT(0)
+        exr = absint.Explorer(prog, effects=eff)
+        for i in range(n):
+            o = [o for o in exr.run(ra, [PTR("RING"), PTR("SBUF", (EVSZ * i,))], store) if o.kind in ("ret", "exit")]
+            ctx.need(len(o) == 1, "ring_add cannot be evaluated")
+            store = o[0].store
+        store.update({("SP", F("sortplan", "bad0")): PTR("SBUF", (EVSZ * rstart,)),
+                      ("SP", F("sortplan", "next")): PTR("SBUF", (EVSZ * n,)),
+                      ("SP", F("sortplan", "r")): PTR("RING"), ("SP", F("sortplan", "fd")): INT(9),
+                      ("SP", F("sortplan", "base")): PTR("SBUF", (0,))})
+
+        def rec(name):
+            def s_(ex_, st, args, f, e):
+                k = st.store.get(("NREC", ()), INT(0))[1]
+                return [(TOP, {("NREC", ()): INT(k + 1), ("REC", (k,)): ("val", name) + tuple(args)})]
+            return s_
+        sums = {"sort_buf": rec("sort_buf"), "write_stream": rec("write_stream"), "rebuild_ring": rec("rebuild_ring"),
+                "ring_check": rec("ring_check"), "malloc": lambda ex_, st, a, f, e: [(PTR("HEAP", (0,)), {})],
+                "free": lambda ex_, st, a, f, e: [(TOP, {})]}
+        exq = absint.Explorer(prog, effects=eff, summaries=sums, loop_bound=rsize + n + 4, max_depth=4,
+                              inline=lambda nm, d: nm in ("find_destination", "find_min_clock", "ovni_ev_size",
+                                                          "ovni_payload_size", "get_jumbo_payload_size"))
+        return exq.run(esp5, [PTR("SP")], store)
+
+    ncases = 0
+    for npre in range(0, 4):
+        for pre in itertools.combinations_with_replacement((10, 20, 30), npre):
+            for nreg in (1, 2):
+                for regc in itertools.product((5, 25, 50), repeat=nreg):
+                    clocks = list(pre) + [40] + list(regc)
+                    n = len(clocks)
+                    rstart = npre + 1
+                    clock0 = min(regc)
+                    for rsize in (3, 4, n + 3):
+                        ncases += 1
+                        outs = plan_case(clocks, rstart, rsize)
+                        rets = [o for o in outs if o.kind == "ret"]
+                        inst = "execute_sort_plan:clocks=%s:region-from=%d:ring=%d" % (",".join(map(str, clocks)), rstart, rsize)
+                        bad = []
+                        if not rets or any(o.kind == "die" for o in outs):
+                            bad.append("the plan aborts or does not return")
+                        held = list(range(max(0, n - (rsize - 1)), n))
+                        cands = [j for j in held if clocks[j] < clock0]
+                        must_succeed = bool(cands) or n <= rsize - 2
+                        may_fail = not cands and n >= rsize - 1
+                        for o in rets:
+                            if o.ret == INT(0):
+                                k = o.store.get(("NREC", ()), INT(0))[1]
+                                recs = [o.store[("REC", (i,))] for i in range(k)]
+                                byname = {r[1]: r[2:] for r in recs}
+                                if sorted(byname) != ["rebuild_ring", "ring_check", "sort_buf", "write_stream"]:
+                                    bad.append("the plan performs %s" % [r[1] for r in recs])
+                                    continue
+                                first = byname["sort_buf"][0]
+                                nxt = PTR("SBUF", (EVSZ * n,))
+                                if first[0] != "ptr" or first[1] != "SBUF" or first[2][0] % EVSZ:
+                                    bad.append("the sorted range starts at %s" % (first,))
+                                    continue
+                                fi = first[2][0] // EVSZ
+                                size = INT(EVSZ * (n - fi))
+                                if fi > 0 and max(clocks[:fi]) > min(clocks[fi:]):
+                                    bad.append("the range to sort starts at event %d (clock %d) although event(s) before it "
+                                               "are later (clock %d) than an event inside the range (clock %d): the stream "
+                                               "stays unsorted" % (fi, clocks[fi], max(clocks[:fi]), min(clocks[fi:])))
+                                if byname["sort_buf"] != (first, PTR("HEAP", (0,)), size):
+                                    bad.append("sort_buf gets %s" % (byname["sort_buf"],))
+                                if byname["write_stream"] != (INT(9), PTR("SBUF", (0,)), first, PTR("HEAP", (0,)), size):
+                                    bad.append("the sorted bytes are written back with %s" % (byname["write_stream"],))
+                                rb = byname["rebuild_ring"]
+                                if rb[0] != PTR("RING") or rb[2] != first or rb[3] != nxt or rb[1][0] != "int" or \
+                                        o.store.get(("RA", (rb[1][1],))) != first:
+                                    bad.append("the ring is rebuilt with %s, whose slot does not hold the first sorted event" % (rb,))
+                                if byname["ring_check"] != (PTR("RING"), rb[1]):
+                                    bad.append("ring_check starts at %s" % (byname["ring_check"],))
+                            elif o.ret is not None and o.ret[0] == "int" and o.ret[1] < 0:
+                                if not may_fail:
+                                    bad.append("the plan fails although an event earlier than the region (or the stream's "
+                                               "beginning) is inside the look-back ring")
+                            else:
+                                bad.append("returns %s" % (o.ret,))
+                        if must_succeed and not any(o.ret == INT(0) for o in rets):
+                            bad.append("no successful path")
+                        ctx.check(not bad, "R16.5", inst, esp5.loc(), "; ".join(sorted(set(bad))))
+    ctx.need(ncases >= 300, "R16.5: only %d cases generated" % ncases)
+
     # ---- R16.4 ------------------------------------------------------------------------------------
     esp = prog.fn("execute_sort_plan", SC)
     ex = absint.Explorer(prog, effects=eff, summaries={
@@ -249,5 +356,6 @@ def run(ctx):
     ef.propagates(esp)
     for (g, c, where, ok, detail) in ef.checked_sites:
         ctx.check(ok, "R16.4", "propagate:%s->%s" % (g, c), where, "error of %s dropped in %s: %s" % (g, c, detail))
-    ctx.check(len(ef.checked_sites) >= 3, "R16.4", "propagate:chain-length", main.loc(),
-              "propagation chain has %d links" % len(ef.checked_sites))
+    if all(ok for (_g, _c, _w, ok, _d) in ef.checked_sites):
+        ctx.check(len(ef.checked_sites) >= 3, "R16.4", "propagate:chain-length", main.loc(),
+                  "propagation chain has %d links" % len(ef.checked_sites))
